@@ -120,7 +120,8 @@ def catalogue():
     for i, v in enumerate((T1, T2)):
         lo, hi = _bbox_of_points(v)
         add(f"Tetrahedron_{i + 1}", {"cls": "Tetrahedron", "v2": [list(p) for p in v]}, lo, hi)
-    for name, f2, mk in [("box", box_mesh((4, 2, 6)), "convex"), ("box2", box_mesh((2, 6, 4)), "convex"),      # box2: same face count as box, other geometry ("boxax", box_mesh((4, 2, 6)), "axial"), ("L", cell_mesh(L_CELLS), "axial"),
+    # box2: same face count as box, other geometry
+    for name, f2, mk in [("box", box_mesh((4, 2, 6)), "convex"), ("box2", box_mesh((2, 6, 4)), "convex"), ("boxax", box_mesh((4, 2, 6)), "axial"), ("L", cell_mesh(L_CELLS), "axial"),
                          ("U", cell_mesh(U_CELLS), "axial"), ("octa", octa_mesh(4), "convex"), ("tetra", tetra_mesh(T2), "convex"),
                          ("prism", prism_mesh(), "convex")]:
         lo, hi = _bbox_of_points(f2)
